@@ -21,7 +21,14 @@
    determinant / inverse / QR absence (C07 / C08: C16_linalg_absent_iff).  Those models have no
    Panic constructor: "does not panic" for them is carried by the correspondence (C16 op 12 runs
    every adaptor as the receiver with the boundary alphabet; C07 / C08 / C17 workloads), not by
-   a theorem.  NOT proved: Cholesky / LDL^T / Gaussian constructors on degenerate input are
+   a theorem.  (4) Second extension wave (last block of this file): for the VIEW ADAPTORS that is
+   no longer so - Model/ViewsM.v re-transcribes view_shape and the checked getter of every adaptor
+   over any source with explicit machine arithmetic (it HAS Panic), and
+   C16_view_adaptors_machine_total proves both profiles equal to C02's ideal model under
+   `fits_leaves` (store sizes only).  The proof had forced one more hypothesis (for every chain the
+   SUM of the chained lengths <= usize::MAX), violable through the public API: finding F16, fixed
+   in /repo by f29e87d; the constructor now establishes it (C16_chain_ctor_establishes_sum) and
+   C16_chain_length_sum_overflows is the refutation witness for the code before the fix.  NOT proved: Cholesky / LDL^T / Gaussian constructors on degenerate input are
    indexed only in notes/C01_C16.md (C08_cholesky_rejects, C08_ldlt_rejects, C17_mv_constructors). *)
 From Coq Require Import List ZArith NArith Bool Arith.
 From EasyML Require Import Base.Sx Model.Shape Model.U64 Model.Fallible Model.FallibleApi
@@ -512,3 +519,235 @@ Print Assumptions C16_record_tensor_from_iter_total.
 Print Assumptions C16_record_matrix_from_iter_total.
 Print Assumptions C16_from_iters_streams_independent.
 Print Assumptions C16_linalg_absent_iff.
+
+(* ======================================================================================== *)
+(* VIEW ADAPTORS WITH MACHINE ARITHMETIC (second extension wave; appended block)            *)
+(* Model/ViewsM.v: view_shape and the checked getter of EVERY adaptor (range, mask, index,  *)
+(* expansion, rename, reversal, access, transposition, stack, chain, wrappers, tensor and   *)
+(* matrix-backed leaves) over ANY source view, every usize operation explicit (u_add /      *)
+(* u_sub / u_mul in mode m; the TensorIndex `.unwrap()` and `sources[0]` as Panic).         *)
+(* Proofs/C16ViewsMP.v.  `fits_leaves c`: every leaf stores <= usize::MAX elements and a    *)
+(* stack has <= usize::MAX sources (sizes of a Vec / an array: typing facts in Rust).       *)
+(* The proof first FORCED one more hypothesis: for every chain the sum of the chained       *)
+(* lengths <= usize::MAX, which TensorChain::from did not check and the public API could    *)
+(* violate (finding F16, notes/C01_C16.md).  Since fix f29e87d the constructor checks it    *)
+(* (Views.chain_ctor), `v_ctor v = Ok c` establishes it (C16ViewsMP.ctor_chain_sums) and    *)
+(* the hypothesis is gone.  C16_chain_length_sum_overflows stays as the refutation witness  *)
+(* for the constructor before the fix (Views.chain_ctor_legacy).                            *)
+(* ======================================================================================== *)
+From EasyML Require Model.ViewsM Proofs.C16ViewsMP.
+
+(* no usize computation of view_shape / get_reference overflows, in either build profile, for
+   ANY index tuple (all of N, in particular all of [0, 2^64)): the machine result is Ok of C02's
+   ideal-arithmetic model - no Panic, no wrapped value *)
+Theorem C16_view_adaptors_machine_total : forall m v c,
+  Views.v_ctor v = Ok c -> C16ViewsMP.fits_leaves c ->
+  ViewsM.c_shape_m m c = Ok (Views.c_shape c) /\
+  forall idx, length idx = length (Views.c_shape c) ->
+    ViewsM.c_get_m m c idx = Ok (Views.c_get c idx).
+Proof.
+  intros m v c Hc Hf. pose proof (C02P.ctor_wf v c Hc) as Hw.
+  apply (C16ViewsMP.machine_agrees m c Hw (C16ViewsMP.ctor_fits v c Hc Hf)).
+Qed.
+
+(* ... hence the two build profiles agree, and with C16_every_adaptor_checked_get the machine
+   getter is absent exactly outside the reported shape *)
+Theorem C16_view_adaptors_mode_independent : forall v c,
+  Views.v_ctor v = Ok c -> C16ViewsMP.fits_leaves c ->
+  ViewsM.c_shape_m Debug c = ViewsM.c_shape_m Release c /\
+  forall idx, length idx = length (Views.c_shape c) ->
+    ViewsM.c_get_m Debug c idx = ViewsM.c_get_m Release c idx.
+Proof.
+  intros v c Hc Hf. pose proof (C02P.ctor_wf v c Hc) as Hw.
+  apply (C16ViewsMP.machine_mode_independent c Hw (C16ViewsMP.ctor_fits v c Hc Hf)).
+Qed.
+
+Theorem C16_view_adaptors_machine_absent_iff : forall m v c idx,
+  Views.v_ctor v = Ok c -> C16ViewsMP.fits_leaves c -> length idx = length (Views.c_shape c) ->
+  exists r, ViewsM.c_get_m m c idx = Ok r /\
+    (r = None <-> ~ in_range idx (lens_of (Views.c_shape c))).
+Proof.
+  intros m v c idx Hc Hf Hl. pose proof (C02P.ctor_wf v c Hc) as Hw.
+  destruct (C16ViewsMP.machine_agrees m c Hw (C16ViewsMP.ctor_fits v c Hc Hf)) as [Hu [_ Hg]].
+  exists (Views.c_get c idx). split; [apply Hg; exact Hl|].
+  apply (C16IndexP.every_adaptor_checked_get v c idx Hc Hu Hl).
+Qed.
+
+(* the constructor establishes what the arithmetic needs: every constructed chain of two or more
+   sources has a total length <= usize::MAX (TensorChain::from panics otherwise, C02_chain_ctor_panics_iff) *)
+Theorem C16_chain_ctor_establishes_sum : forall v c,
+  Views.v_ctor v = Ok c -> C16ViewsMP.chain_sums_ok c.
+Proof. exact C16ViewsMP.ctor_chain_sums. Qed.
+
+(* the one subtraction a constructor performs (clip_masked_shape: *length -= mask.length after
+   IndexRange::clip) cannot underflow for ANY source shape and ANY masks; everything else the
+   adaptor constructors compute is saturating_add / checked_add / min or a source's view_shape *)
+Theorem C16_view_ctor_mask_subtraction_total : forall m (sh : shape) ms, length ms = length sh ->
+  ViewsM.mask_shape_m m sh (Views.clip_all sh ms) =
+  Ok (Views.zipwith (fun d k => (fst d, snd d - Views.r_len k)) sh (Views.clip_all sh ms)).
+Proof. exact C16ViewsMP.clip_masked_shape_total. Qed.
+
+(* REFUTATION WITNESS for the constructor BEFORE fix f29e87d (Views.chain_ctor_legacy, finding F16):
+   two chained sources of 2^63 indexes each (every source fits) were accepted; view_shape of the
+   chain panics in a dev build and reports length ZERO in a release build although index 0 is
+   present; the Option-returning getters of a reversal of the chain and of a chain of two such
+   chains panic in a dev build.  The code now: the same term is a constructor Panic. *)
+Theorem C16_chain_length_sum_overflows :
+  exists c l1 l2, Views.v_ctor (C16ViewsMP.big_leaf 1) = Ok l1 /\
+    Views.v_ctor (C16ViewsMP.big_leaf 2) = Ok l2 /\
+    Views.chain_ctor_legacy [l1; l2] 0%nat = Ok c /\ c = Views.CChain [l1; l2] 0 /\
+    C16ViewsMP.fits l1 /\ C16ViewsMP.fits l2 /\
+    Views.c_shape c = [(0%nat, 18446744073709551616)] /\
+    ViewsM.c_shape_m Debug c = Panic /\
+    ViewsM.c_shape_m Release c = Ok [(0%nat, 0)] /\
+    ViewsM.c_get_m Release c [0] = Ok (Some (1, 0)) /\
+    ViewsM.c_get_m Debug c [0] = Ok (Some (1, 0)) /\
+    ViewsM.c_get_m Debug (Views.CReverse c [true]) [0] = Panic /\
+    ViewsM.c_get_m Debug (Views.CChain [c; c] 0) [1] = Panic /\
+    Views.v_ctor C16ViewsMP.big_chain = Panic.
+Proof. exact C16ViewsMP.chain_sum_overflow. Qed.
+
+(* non-vacuity: the composition of C02's example (reversal over a mask over a chain of a range and
+   an expansion of a selection, transposed) satisfies fits_min; both profiles resolve [0; 2] *)
+Example C16_view_adaptors_nonvacuous :
+  let v := Views.VTranspose
+    (Views.VReverse
+       (Views.VMask
+          (Views.VChain [ Views.VRange (Views.VTensor 1 [(0%nat, 3); (1%nat, 4)])
+                            (Views.PNamed false [(1%nat, Views.mkR 1 9)]);
+                          Views.VExpand (Views.VIndex (Views.VTensor 2 [(0%nat, 2); (1%nat, 3); (2%nat, 5)])
+                                                      [(2%nat, 4)]) [] ]
+                        0%nat)
+          (Views.PAll true [Some (Views.mkR 1 2); None]))
+       [1%nat])
+    [1; 0]%nat in
+  exists c, Views.v_ctor v = Ok c /\ C16ViewsMP.fits_leaves c /\
+    ViewsM.c_get_m Debug c [0; 2] = Ok (Some (2, 29)) /\
+    ViewsM.c_get_m Release c [0; 18446744073709551615] = Ok None.
+Proof.
+  cbv zeta. eexists. split; [vm_compute; reflexivity|]. split; [|split; vm_compute; reflexivity].
+  cbn. repeat split; vm_compute; discriminate.
+Qed.
+
+Print Assumptions C16_view_adaptors_machine_total.
+Print Assumptions C16_view_adaptors_mode_independent.
+Print Assumptions C16_view_adaptors_machine_absent_iff.
+Print Assumptions C16_chain_ctor_establishes_sum.
+Print Assumptions C16_view_ctor_mask_subtraction_total.
+Print Assumptions C16_chain_length_sum_overflows.
+
+(* ======================================================================================== *)
+(* GENERATED FROM THE SOURCE, second wave (builder GEN; appended block): iterator chains      *)
+(* (`iter().map().product()`, `skip`), the std::array::from_fn frames and the unchecked       *)
+(* position loop, regenerated by tools/gen_arith.py from /repo's Rust text on every run       *)
+(* (Gen/Arith.v), equal to the hand-written model functions: dimensions::elements and         *)
+(* compute_strides of Model/Shape.v (the functions under C01's and C10's theorems),           *)
+(* Fallible.prod_legacy / rev_index, Views.reverse_indexes (C02).  Proofs: GenArithP.v,       *)
+(* GenArithViewsP.v.                                                                          *)
+(* ======================================================================================== *)
+From EasyML Require Model.ShapeIter Proofs.ShapeP.
+
+Theorem C16_generated_iterator_chains_match_model : forall md,
+  (* machine level, unconditional *)
+  (forall sh : list (N * N), gen_elements md sh = prod_legacy md (map snd sh) 1) /\
+  (forall (sh : list (N * N)) d,
+     gen_compute_strides_elem md sh d =
+     obind (u_add md d 1) (fun d1 => prod_legacy md (skipn (N.to_nat d1) (map snd sh)) 1)) /\
+  (forall sh : list (N * N),
+     gen_compute_strides md sh =
+     gen_map_m (strides_elem_m md (map snd sh)) (map N.of_nat (seq 0 (length sh)))) /\
+  (forall xs, gen_reverse_indexes md xs =
+     gen_map_m (fun x => let '(i, d, b) := x in if (b : bool) then rev_index md (snd d) i else Ok i) xs) /\
+  (forall idx st, gen_get_index_direct_unchecked md (combine idx st) = gidu_m md idx st 0) /\
+  (* against the ideal-arithmetic models, for every shape a validating constructor accepts *)
+  (forall sh : shape, valid_shape sh -> elements sh <= usize_max ->
+     gen_elements md (shN sh) = Ok (elements sh)) /\
+  (forall sh : shape, valid_shape sh -> elements sh <= usize_max -> N.of_nat (length sh) <= usize_max ->
+     gen_compute_strides md (shN sh) = Ok (compute_strides sh)) /\
+  (forall idx (sh : shape) rv, Forall (fun l => 0 < l) (lens_of sh) ->
+     gen_reverse_indexes md (zip3r idx (shN sh) rv) = Ok (Views.reverse_indexes idx sh rv)).
+Proof.
+  intros md.
+  split; [intros; apply gen_elements_eq|].
+  split; [intros; apply gen_compute_strides_elem_eq|].
+  split; [intros; apply gen_compute_strides_eq|].
+  split; [intros; apply gen_reverse_indexes_eq|].
+  split; [intros; apply gen_get_index_direct_unchecked_eq|].
+  split; [intros; apply gen_elements_shape; assumption|].
+  split; [intros; apply gen_compute_strides_shape; assumption|].
+  intros; apply gen_reverse_indexes_views; assumption.
+Qed.
+
+(* non-vacuity: kernel-evaluated on the generated definitions themselves, incl. the overflow
+   that distinguishes the two build profiles *)
+Example C16_generated_iterator_chains_nonvacuous :
+  gen_elements Debug [(0, 2); (1, 3); (2, 4)] = Ok 24 /\
+  gen_elements Debug [(0, usize_max); (1, 2)] = Panic /\
+  gen_elements Release [(0, usize_max); (1, 2)] = Ok (usize_max - 1) /\
+  gen_compute_strides Debug [(0, 2); (1, 3); (2, 4)] = Ok [12; 4; 1] /\
+  gen_reverse_indexes Debug (zip3r [0; 1; 5] [(0, 3); (1, 3); (2, 3)] [true; false; true]) = Ok [2; 1; 5] /\
+  gen_get_index_direct_unchecked Debug (combine [1; 2; 3] [12; 4; 1]) = Ok 23.
+Proof. vm_compute. repeat split. Qed.
+
+(* the loops that WRITE arrays: clip_range_shape / clip_masked_shape (the shapes of TensorRange /
+   TensorMask), one iteration and the whole loop over the arrays in lockstep; the subtraction
+   `*length -= mask.length` cannot underflow in either build profile *)
+Theorem C16_generated_array_writing_loops_match_model : forall md,
+  (forall nm len r,
+     gen_clip_range_shape_body md (nm, len) r = omap (fun c => ((nm, r_length c), c)) (ir_clip r len)) /\
+  (forall nm len r,
+     gen_clip_masked_shape_body md (nm, len) r =
+     obind (ir_clip r len) (fun c => omap (fun l => ((nm, l), c)) (u_sub md len (r_length c)))) /\
+  (forall xs, gen_clip_range_shape md xs =
+     gen_map_m (fun x => omap (fun c => ((fst (fst x), r_length c), c)) (ir_clip (snd x) (snd (fst x)))) xs) /\
+  (forall xs, gen_clip_masked_shape md xs =
+     gen_map_m (fun x => obind (ir_clip (snd x) (snd (fst x)))
+                               (fun c => omap (fun l => ((fst (fst x), l), c)) (u_sub md (snd (fst x)) (r_length c)))) xs) /\
+  (forall nm len r,
+     gen_clip_range_shape_body md (nm, len) r =
+     Ok ((nm, Views.r_len (Views.r_clip (to_v r) len)), mkRange (r_start r) (Views.r_len (Views.r_clip (to_v r) len))) /\
+     gen_clip_masked_shape_body md (nm, len) r =
+     Ok ((nm, len - Views.r_len (Views.r_clip (to_v r) len)), mkRange (r_start r) (Views.r_len (Views.r_clip (to_v r) len)))).
+Proof.
+  intros md.
+  split; [intros; apply gen_clip_range_shape_body_eq|].
+  split; [intros; apply gen_clip_masked_shape_body_eq|].
+  split; [intros; apply gen_clip_range_shape_eq|].
+  split; [intros; apply gen_clip_masked_shape_eq|].
+  intros; split; [apply gen_clip_range_shape_body_views|apply gen_clip_masked_shape_body_views].
+Qed.
+
+Example C16_generated_array_writing_loops_nonvacuous :
+  gen_clip_range_shape Debug [((0, 5), mkRange 1 usize_max); ((1, 3), mkRange 7 2)] =
+    Ok [((0, 4), mkRange 1 4); ((1, 0), mkRange 7 0)] /\
+  gen_clip_masked_shape Release [((0, 5), mkRange 1 usize_max); ((1, 3), mkRange 0 0)] =
+    Ok [((0, 1), mkRange 1 4); ((1, 3), mkRange 0 0)].
+Proof. vm_compute. split; reflexivity. Qed.
+
+(* a translated function that CALLS other translated functions: ShapeIterator's size_hint
+   (src/tensors/indexing.rs; the exact remaining length of every tensor iterator, C09) =
+   elements - get_index_direct_unchecked(indexes, compute_strides), equal to Model/ShapeIter.v
+   iter_len for an iterator over a valid shape whose indexes are in range while unfinished *)
+Theorem C16_generated_size_hint_matches_model : forall md (it : ShapeIter.shape_iter),
+  let sh := ShapeIter.si_shape it in
+  valid_shape sh -> elements sh <= usize_max -> N.of_nat (length sh) <= usize_max ->
+  length (ShapeIter.si_indexes it) = length sh ->
+  (ShapeIter.si_finished it = false -> ShapeP.in_range (ShapeIter.si_indexes it) (lens_of sh)) ->
+  gen_size_hint md (ShapeIter.si_finished it) (ShapeIter.si_indexes it) (shN sh) =
+  Ok (ShapeIter.iter_len it, Some (ShapeIter.iter_len it)).
+Proof. exact gen_size_hint_iter_len. Qed.
+
+Example C16_generated_size_hint_nonvacuous :
+  let it := ShapeIter.mkSI [(0%nat, 2); (1%nat, 3)] [1; 1] false in
+  valid_shape (ShapeIter.si_shape it) /\ ShapeP.in_range (ShapeIter.si_indexes it) (lens_of (ShapeIter.si_shape it)) /\
+  gen_size_hint Debug false [1; 1] [(0, 2); (1, 3)] = Ok (2, Some 2) /\
+  gen_size_hint Release true [1; 1] [(0, 2); (1, 3)] = Ok (0, Some 0) /\
+  gen_size_hint Debug false [] [] = Ok (1, Some 1).
+Proof.
+  cbv zeta. split; [split; [repeat constructor; cbn; intuition discriminate|repeat constructor; reflexivity]|].
+  split; [cbn; repeat split; reflexivity|]. vm_compute. repeat split.
+Qed.
+
+Print Assumptions C16_generated_iterator_chains_match_model.
+Print Assumptions C16_generated_array_writing_loops_match_model.
+Print Assumptions C16_generated_size_hint_matches_model.
